@@ -24,7 +24,55 @@ def gen_core_case(g: VGen, opts: dict) -> dict:
             x = g.near_miss(x)
             if r.random() < 0.3:
                 x = g.near_miss(x)
-    return {"env": g.env, "v": v, "x": x, "stream": stream}
+    return {"env": g.env, "v": v, "x": x, "stream": stream, "classes": g.classes}
+
+
+def gen_collection_case(g: VGen, opts: dict) -> dict:
+    """C03: a collection validator at the root (both child flavours), every valid/invalid pattern"""
+    r = g.rng
+    g.reset()
+    k = r.choice(["list", "set", "utuple", "ntuple", "map"])
+    v = getattr(g, "gen_" + k)(r.choice([0, 0, 1, 1, 2]), False)
+    if r.random() < 0.2:
+        v = {"k": "user", "vid": g.vid(), "inner": v}
+    stream = r.choice(["conform", "near", "near", "pattern", "pattern", "hostile"])
+    if stream == "hostile":
+        x = g.hostile()
+    else:
+        x = g.conform(v)
+        if stream == "near":
+            x = g.near_miss(x)
+        elif stream == "pattern" and x["t"] in ("list", "tuple", "set") and x.get("xs"):
+            # a random valid/invalid pattern: replace a random subset of the elements
+            for i in range(len(x["xs"])):
+                if r.random() < 0.5:
+                    x["xs"][i] = g.hashable_val() if x["t"] == "set" else g.mutate(x["xs"][i])
+            if x["t"] == "set":
+                x["xs"] = g.distinct(x["xs"])
+    return {"env": g.env, "v": v, "x": x, "stream": stream, "classes": g.classes}
+
+
+def gen_wrapper_case(g: VGen, opts: dict) -> dict:
+    """C05: a union / optional / maybe / lazy / user wrapper at the root"""
+    r = g.rng
+    g.reset()
+    k = r.choice(["union", "union", "optional", "maybe", "lazy", "lazy", "user", "always"])
+    if k == "always":
+        v = {"k": "always", "vid": 1}
+    elif k == "union":
+        n = r.choice([1, 2, 3, 4, 5, 8])
+        v = {"k": "union", "vid": g.vid(), "vs": [g.gen_v(r.choice([0, 0, 1])) for _ in range(n)],
+             "untyped": r.random() < 0.5}
+    else:
+        v = getattr(g, "gen_" + k)(r.choice([0, 1, 1, 2]), False)
+    stream = r.choice(["conform", "conform", "near", "hostile"])
+    if stream == "hostile":
+        x = g.hostile()
+    else:
+        x = g.conform(v, rec_depth=r.choice([0, 1, 2, 4, 6]))
+        if stream == "near":
+            x = g.near_miss(x)
+    return {"env": g.env, "v": v, "x": x, "stream": stream, "classes": g.classes}
 
 
 def core_shard(seed: int, shard: int, n: int, opts: dict) -> dict:
@@ -43,6 +91,7 @@ def core_shard(seed: int, shard: int, n: int, opts: dict) -> dict:
     idx: List[int] = []
     unbuildable = 0
     for i, c in enumerate(cases):
+        wire.set_classes(c.get("classes", []))
         try:
             real = engine.run_real_case(c)
         except RecursionError:
@@ -67,6 +116,7 @@ def core_shard(seed: int, shard: int, n: int, opts: dict) -> dict:
     fields = opts.get("fields", engine.FIELDS_ALL)
     for j, i in enumerate(idx):
         c = cases[i]
+        wire.set_classes(c.get("classes", []))
         real = reals[i]
         assert real is not None
         model = {"sync": answers[2 * j], "async": answers[2 * j + 1]}
